@@ -329,6 +329,10 @@ func (s *Stream) close() error {
 			}
 			return s.session.wakeUpPeer()
 		}
+	} else {
+		// the state moved on between the load and the CAS (e.g. the peer's close notification was handled
+		// concurrently: opened -> half closed): close from the new state instead of silently doing nothing.
+		return s.close()
 	}
 	return nil
 }
